@@ -299,6 +299,7 @@ def transform_body(body, opts, log, lost):
             log.append(('T6', 'rewrite (x%d): %s  =>  %s' % (n, o[1], o[2])))
         elif o[0] in ('rwre', 'rwre?'):
             body, n = re.subn(o[1], o[2], body)
+            body = body.replace('duration_cmp_>=(', 'duration_cmp_ge(').replace('duration_cmp_<=(', 'duration_cmp_le(').replace('duration_cmp_>(', 'duration_cmp_gt(').replace('duration_cmp_<(', 'duration_cmp_lt(')
             if not n:
                 if o[0] == 'rwre?':
                     continue
